@@ -164,3 +164,25 @@ package ssh
 //@ ensures result0 <= win
 //@ assert_at "w.win -= win" win <= w.win
 //@ canary ensures result0 == win
+
+// ---- C24: mpint (RFC 4251 section 5) over math/big ----
+//@ pred bv(x) = ghost(x, bigval)
+// length in bytes of the minimal two's-complement encoding of v
+//@ pred mpintlen(v) = ite(v == 0, 0, ite(v > 0, spec.bitlen(v) / 8 + 1, spec.bitlen(0 - v - 1) / 8 + 1))
+
+//@ func intLength
+//@ props C24
+//@ nonnil n
+//@ assume_global bigOne != nil && bv(bigOne) == 1
+//@ ensures result == 4 + mpintlen(bv(n))
+//@ ensures bv(n) == old(bv(n))
+//@ canary ensures result == 4 + spec.bitlen(bv(n)) / 8
+
+//@ func parseInt
+//@ props C24
+//@ fresh out
+//@ ensures ok == (len(in) >= 4 && (len(in) - 4) % 4294967296 >= be32(in))
+//@ ensures implies(ok, out != nil && view(rest, in, 4 + be32(in), len(in)))
+//@ ensures implies(ok && (be32(in) == 0 || in[4] < 128), bv(out) == spec.beval(row(in), off(in) + 4, be32(in)))
+//@ ensures implies(ok && be32(in) > 0 && in[4] >= 128, bv(out) < 0)
+//@ loop 1 invariant -1 <= rangeindex && rangeindex < len(notBytes)
